@@ -222,6 +222,45 @@ Eval vm_compute in (acyclic lock_order, reacquire_count, lock_order).
     return ' '.join(o.split())[:3000]
 
 
+def lockscan_selftest():
+    """Translator T2 on copies of the current source carrying known lock-discipline defects
+    (seeded/C15a: publication after the signal; seeded/C15b: slice read outside its mutex):
+    the regenerated table must show unseparated pairs for each. Returns a list of results."""
+    import shutil, tempfile
+    out = []
+    lsenv = dict(GOENV, PATH='/opt/veriftools/go1.26.8/bin:' + os.environ.get('PATH', ''))
+    for name in ('C15a', 'C15b'):
+        patch = os.path.join(VERIF, 'seeded', name, 'patch.diff')
+        d = tempfile.mkdtemp(prefix='ls-selftest-', dir=WORK)
+        try:
+            src = os.path.join(d, 'src')
+            shutil.copytree(REPO, src, ignore=shutil.ignore_patterns('.git'))
+            rc, o, _ = run(['patch', '-p1', '-s', '--fuzz=3', '-i', patch], cwd=src)
+            if rc != 0:
+                out.append({'case': name, 'result': 'skipped (patch does not apply to the current tree)'})
+                continue
+            os.makedirs(os.path.join(d, 'gen')); os.makedirs(os.path.join(d, 'theories'))
+            rc, o, _ = run([os.path.join(BIN, 'lockscan'), src, os.path.join(d, 'gen', 'AccessTable.v')], cwd=src, env=lsenv, timeout=600)
+            if rc != 0:
+                out.append({'case': name, 'result': 'lockscan failed: ' + o[-300:]})
+                continue
+            shutil.copy(os.path.join(COQ, 'theories', 'Access.v'), os.path.join(d, 'theories'))
+            open(os.path.join(d, 'q.v'), 'w').write('''From Coq Require Import List NArith String Bool.
+From GT Require Import Access.
+From GTgen Require Import AccessTable.
+Eval vm_compute in (race_free exemptions (access_table ++ user_sites)).
+''')
+            ok = True
+            for f in ('theories/Access.v', 'gen/AccessTable.v', 'q.v'):
+                rc, o, _ = run(['coqc', '-Q', 'theories', 'GT', '-Q', 'gen', 'GTgen', f], cwd=d, timeout=600)
+                ok = ok and rc == 0
+            flagged = ok and '= false' in o
+            out.append({'case': name, 'result': 'flagged' if flagged else ('NOT flagged: ' + ' '.join(o.split())[-200:])})
+        finally:
+            shutil.rmtree(d, ignore_errors=True)
+    return out
+
+
 def coqchk(pid):
     """thorough tier: re-check the compiled property file and everything it depends on with the
     independent checker; returns (ok, axioms summary)."""
